@@ -38,9 +38,13 @@ func vRunCase(c vCase) (result string, obs []vObs) {
 			if r := recover(); r != nil {
 				switch x := r.(type) {
 				case vFailure:
-					done <- "fail:" + x.label
+					done <- "fail:" + strings.Join(append(st.failures, x.label), "|")
 				case vAbort:
-					done <- "abort:" + x.reason
+					if x.reason == "end-after-finding" {
+						done <- "fail:" + strings.Join(st.failures, "|")
+					} else {
+						done <- "abort:" + x.reason
+					}
 				default:
 					msg := fmt.Sprint(r)
 					msg = strings.ReplaceAll(msg, "\n", " ")
@@ -50,6 +54,10 @@ func vRunCase(c vCase) (result string, obs []vObs) {
 			}
 			if st.pos != len(st.inputs) {
 				done <- fmt.Sprintf("abort:diverge: %d of %d inputs unused", len(st.inputs)-st.pos, len(st.inputs))
+				return
+			}
+			if len(st.failures) > 0 {
+				done <- "fail:" + strings.Join(st.failures, "|")
 				return
 			}
 			done <- "pass"
